@@ -223,6 +223,15 @@ def gen_upgrade(rng, two_apps=False, with_new_model=None, max_edits=4,
             'fields': fields,
             'meta': {'unique_together': [['q1', 'q2']]}
             if rng.random() < 0.5 else {}}
+        if two_apps and rng.random() < 0.6:
+            # the other app gets a new model too: two tasks create models
+            # in the same batch
+            other = [a for a in apps if a != app][0]
+            spec1[other]['NewModel2'] = {
+                'fields': [['r1', {'kind': 'Integer'}],
+                           ['r2', {'kind': 'ForeignKey', 'null': True,
+                                   'to': '%s.NewModel' % app}]],
+                'meta': {}}
     h.specs.append(spec1)
     h.steps.append(edits)
     texts = {}
